@@ -798,7 +798,8 @@ Proof.
       apply Z.ltb_lt in E. pose proof (Bits.pow2_pos _ Ht). apply andb_false_iff in Eal. destruct Eal as [Eal|Eal].
       + apply Z.ltb_ge in Eal. lia.
       + apply negb_false_iff in Eal. destruct (pow2_or_zero_spec _ Eal); [lia|auto].
-    - unfold gr. destruct (Z.testbit flags 0); [apply Bits.pow2_1|apply (eff_granularity_pow2 c Hc)]. }
+    - unfold gr. destruct (Z.testbit flags 0); [apply Bits.pow2_1|apply (eff_granularity_pow2 c Hc)].
+    - unfold al. destruct (type_min_alignment c ty <? minAlign) eqn:E; [apply Z.ltb_lt in E|]; unfold type_min_alignment in *; lia. }
   assert (Hbs : 0 <= bs < 2 ^ 62).
   { unfold bs. destruct (blockSize =? 0); [apply (preferred_block_size_bound c Hc Hmax Hlarge)|exact Hbs0]. }
   assert (I0 : VamInvM (mkVam (v_m v) (v_global v) (v_lists v) (v_ded v) (mkPool (v_next_uid v) (v_next_pool_id v) l [] :: v_pools v)
